@@ -1,5 +1,120 @@
 /-
-C18 — property theorems (stub: not built yet).
+C18 — Inline options equal compile-time options.
+
+Theorems about `Options.resolve` (the option threading of `syntax/parser.go`: `p.options`, the
+options stack, `scanOptions`) and about the list of option readers regenerated from the Go source.
+Leg O of the harness ties `resolve` to the real parser: for every generated pattern and all 32
+option sets it prints the fully explicit spelling from `resolve` and checks that Go parses it to
+the same tree, tables and program as the original.
 -/
+import RegexVerif.Lemmas.Options
+import RegexVerif.Generated.OptionReaders
+
 namespace RegexVerif.Props.C18
+open RegexVerif.Options
+
+/-- **C18, leading `(?O)`.** Parsing a pattern under compile options `O` stamps the same options on
+    every leaf and decides the same capturing status for every group as parsing `(?O)` followed by the
+    pattern without options: the token lists are identical. -/
+theorem prefix_eq_compile (O : Opts) (p : List Pat) :
+    resolve O p = resolve Opts.none (.opt (onSeq O) :: p) := by
+  simp [resolve_cons, resolveOne, applySeq_none_onSeq]
+
+example : resolve { i := true, x := true } [.leaf 0, .group 1 .unnamed [.opt [(.i, false)], .leaf 2], .leaf 3]
+    = resolve Opts.none [.opt (onSeq { i := true, x := true }), .leaf 0,
+        .group 1 .unnamed [.opt [(.i, false)], .leaf 2], .leaf 3] := by decide
+
+/-- **C18, wrapping `(?O: … )`.** Wrapping the pattern in a scoped group adds one non-capturing
+    group around exactly the token list of the pattern parsed under compile options `O`; in
+    particular every leaf gets the same effective options. -/
+theorem wrap_eq_compile (O : Opts) (id : Nat) (p : List Pat) :
+    resolve Opts.none [.scoped id (onSeq O) p] = .gopen id false O :: resolve O p ++ [.gclose id] ∧
+    leaves (resolve Opts.none [.scoped id (onSeq O) p]) = leaves (resolve O p) := by
+  have h : resolve Opts.none [.scoped id (onSeq O) p] = .gopen id false O :: resolve O p ++ [.gclose id] := by
+    simp [resolve_cons, resolve_nil, resolveOne, applySeq_none_onSeq]
+  refine ⟨h, ?_⟩
+  rw [h]
+  simp [leaves, leaves_append]
+
+example : leaves (resolve Opts.none [.scoped 9 (onSeq { n := true, s := true }) [.leaf 0, .opt [(.s, false)], .leaf 1]])
+    = [(0, { n := true, s := true }), (1, { n := true })] := by decide
+
+/-- **C18, scope of a group.** Whatever the body of a group does to the options — inline `(?O)`,
+    `(?-O)`, nested groups — the items after its closing parenthesis are parsed under the options
+    that were in force at its opening parenthesis (`pushOptions` / `popOptions`). The same holds
+    for a scoped group `(?on-off: … )`, whose own options apply inside only. -/
+theorem off_scoped (o : Opts) (id : Nat) (k : GroupKind) (seq : List (Flag × Bool)) (body rest : List Pat) :
+    resolve o (.group id k body :: rest) =
+      .gopen id (captures o k) o :: resolve o body ++ .gclose id :: resolve o rest ∧
+    resolve o (.scoped id seq body :: rest) =
+      .gopen id false (applySeq o seq) :: resolve (applySeq o seq) body ++ .gclose id :: resolve o rest := by
+  constructor <;> simp [resolve_cons, resolveOne]
+
+/-- **C18, `(?-O)`.** An inline `(?-O)` switches exactly the options of `O` off for the items that
+    follow it in the same group (until another inline item changes them again). -/
+theorem off_switches_rest_of_group (o O : Opts) (rest : List Pat) :
+    resolve o (.opt (offSeq O) :: rest) =
+      resolve { i := o.i && !O.i, m := o.m && !O.m, n := o.n && !O.n, s := o.s && !O.s, x := o.x && !O.x } rest := by
+  simp [resolve_cons, resolveOne, applySeq_offSeq]
+
+/-- non-vacuity of both: `(?i)` … `((?-i)b)c`: `b` is case-sensitive, `c` after the group is not. -/
+example : leaves (resolve Opts.none [.opt (onSeq { i := true }), .leaf 0,
+      .group 1 .unnamed [.opt (offSeq { i := true }), .leaf 2], .leaf 3])
+    = [(0, { i := true }), (2, {}), (3, { i := true })] := by decide
+
+/-- **C18, the parser's stack discipline.** `resolve` (recursion over the pattern tree) is what the
+    parser's single left-to-right pass with an explicit options stack computes: push at `(`,
+    `scanOptions`, keep for a bare `(?…)`, pop at `)`. -/
+theorem stack_machine_eq_resolve (o : Opts) (p : List Pat) :
+    run o [] (flatten p) = resolve o p := by
+  have := run_flatten_aux o [] [] p
+  simpa [run] using this
+
+example : run { m := true } [] (flatten [.group 0 .unnamed [.opt [(.n, true)], .group 1 .unnamed [.leaf 2]], .group 3 .unnamed []])
+    = [.gopen 0 true { m := true }, .gopen 1 false { m := true, n := true }, .leaf 2 { m := true, n := true },
+       .gclose 1, .gclose 0, .gopen 3 true { m := true }, .gclose 3] := by decide
+
+/-! ### who reads option bits after the parser -/
+
+open RegexVerif.Generated in
+/-- option bits that code outside the parser may look at -/
+def postParserBits : List String := ["RightToLeft", "IgnoreCase", "ECMAScript", "RE2", "Unicode"]
+
+open RegexVerif.Generated in
+/-- functions of `syntax/tree.go` that compare two whole option words. They run inside `Parse`
+    (`reduce`, `finalOptimize`), i.e. before the tree the certificate compares exists. -/
+def parseTimeComparers : List String :=
+  ["RegexNode.canBeMadeAtomic", "RegexNode.extractCommonPrefixOneNotoneSet",
+   "RegexNode.extractCommonPrefixText", "RegexNode.reduceConcatenationWithAdjacentLoops"]
+
+open RegexVerif.Generated in
+/-- a use is harmless for the certificate when it tests/clears/sets only post-parser bits, moves the
+    whole word on unchanged (into a new node, a variable, a callee that is itself listed), compares
+    whole words at parse time, or is the debug printer `RegexNode.Description` -/
+def harmless (u : OptionUse) : Bool :=
+  if u.kind = "mask" ∨ u.kind = "clear" ∨ u.kind = "set" ∨ u.kind = "maskout" then
+    u.mask.all (fun b => postParserBits.contains b) || (u.file = "syntax/tree.go" && u.fn = "RegexNode.Description")
+  else if u.kind = "copy" ∨ u.kind = "pass" then true
+  else if u.kind = "cmp" then u.file = "syntax/tree.go" && parseTimeComparers.contains u.fn
+  else false
+
+/-- **C18, certificate soundness fact.** Every use of a `.Options` / `.options` / `.RegexOptions`
+    field outside `syntax/parser.go` — regenerated from the Go source on every run — is harmless in
+    the sense above: after `Parse` nobody looks at the `m`, `s`, `n`, `x` bits, so two parses that
+    agree up to these bits compile to the same program. -/
+theorem options_readers_expected : Generated.optionReaders.all harmless = true := by
+  decide
+
+/-- the list is not empty and contains the readers one expects (writer, runner, match) -/
+example : (Generated.optionReaders.map (·.file)).contains "syntax/writer.go" = true ∧
+    (Generated.optionReaders.map (·.file)).contains "runner.go" = true ∧
+    Generated.optionReaders.length ≥ 40 := by decide
+
+/-- the run-time readers of `Regexp.options` (root package) look at RightToLeft, ECMAScript, RE2 only,
+    apart from handing the word to the replacement parser -/
+theorem regexp_options_runtime_readers :
+    (Generated.optionReaders.filter (fun u => u.pkg = "regexp2")).all
+      (fun u => u.kind = "pass" ∨ (u.kind = "mask" ∧ u.mask.all (fun b => ["RightToLeft", "ECMAScript", "RE2"].contains b))) = true := by
+  decide
+
 end RegexVerif.Props.C18
